@@ -322,6 +322,11 @@ def c08(sc, req, path):
             pa = ask_view(ti, e.val)
             want = (req['base'] == base_denom) if pa['cls'] == 'Basic' else ((req['base'] != base_denom) if pa['cls'] == 'Pending' else z3.BoolVal(False))
             yield refute('class_assigned_at_creation', [matched(e, req['id']), z3.Not(want)], cls=pa['cls'])
+        # creating an ask never replaces one that is on the book (an approved ask stays approved, with its approver and escrow)
+        from .models import struct_eq
+        for i, e in enumerate(sc.world.maps['ask']):
+            post = path.world.maps['ask'][i]
+            yield refute('existing_ask_not_replaced_by_create', [e.present, z3.Not(z3.And(post.present, struct_eq(e.val, post.val)))], cls=ask_view(ti, e.val)['cls'])
     # the Ready clause of Inv is re-established by every operation that keeps the ask
     for i, e in enumerate(path.world.maps['ask']):
         pa = ask_view(ti, e.val)
